@@ -115,6 +115,8 @@ type Noise struct {
 	TypeAlias map[string][]string
 	// LeadingZeros: numbers of unnamed values are written with redundant leading zeros (%01, 002:, @00)
 	LeadingZeros bool
+	// OctalLookalikes (with LeadingZeros): only numbers without the digits 8 and 9 are padded
+	OctalLookalikes bool
 	// EmptyQuoted: every second unnamed global variable, function, alias and instruction result is defined
 	// with the empty quoted name (`@"" = global ...`, `define void @""()`, `%"" = add ...`), which LLVM reads as
 	// unnamed; uses are spelled by number as always.
@@ -139,6 +141,7 @@ var (
 	vecAliasDefs []string
 	vecAliases   int
 	arrAliases   int
+	ptrAliases   int
 )
 
 // newAlias names the vector or array type spelled body. The names are numbered in the order of creation,
@@ -196,10 +199,21 @@ func (t *Type) String() string {
 		}
 		return t.FK
 	case Ptr:
+		ps := t.Elem.String() + "*"
 		if t.AddrSpace != 0 {
-			return fmt.Sprintf("%s addrspace(%d)*", t.Elem, t.AddrSpace)
+			ps = fmt.Sprintf("%s addrspace(%d)*", t.Elem, t.AddrSpace)
 		}
-		return t.Elem.String() + "*"
+		if noise.VecAlias {
+			// named pointer types, up to three per module (`%$v4 = type i32 addrspace(1)*`)
+			if name, ok := vecAlias[ps]; ok {
+				return "%" + QuoteName(name)
+			}
+			if ptrAliases < 3 && (len(vecAliasDefs)+len(ps))%3 == 0 && ps[0] != '{' && ps[0] != '<' { // `type {...}*`, `type <...>*`: LLVM reads the struct or vector and stops
+				ptrAliases++
+				return "%" + QuoteName(newAlias(ps))
+			}
+		}
+		return ps
 	case Vec:
 		var v string
 		if t.Scalable {
